@@ -254,6 +254,9 @@ func (r *rwRT) ruleAllFiles(strict bool) {
 			}
 			return nil
 		})
+		// distinct files have distinct names
+		in.Fields["f.Filename"] = Sym{Name: "filename1", Uniq: true}
+		in.Fields["f2.Filename"] = Sym{Name: "filename2", Uniq: true}
 		res := in.Apply(base, visit, []AV{Sym{Name: "f", NN: true}})
 		r.account(in)
 		rewritten, skipped := 0, 0
@@ -273,6 +276,26 @@ func (r *rwRT) ruleAllFiles(strict bool) {
 			} else {
 				skipped++
 				example = pathSummary(o)
+			}
+			if uses && found {
+				// a second, different file that uses the API, visited after the first one
+				n0 := len(o.St.Events)
+				for _, o2 := range in.Apply(o.St, visit, []AV{Sym{Name: "f2", NN: true}}) {
+					if o2.Panicked {
+						continue
+					}
+					found2 := false
+					for _, e := range o2.St.Events[n0:] {
+						if e.Kind == "call" && e.Fn != nil && e.Fn.Name() == "rewriteFile" {
+							found2 = true
+						}
+					}
+					if !found2 {
+						skipped++
+						example = "after another file was rewritten: " + pathSummary(o2)
+					}
+				}
+				r.account(in)
 			}
 		}
 		if uses {
